@@ -334,4 +334,12 @@ def genuine_group(repo):
                     pairs.append((label, nm)); continue
                 V = SymV(); module, func, octs, exp = build(V)
                 obls += reject_obligations(eng, m_, f_, octs, label, V, nm); pairs.append((label, nm))
+    # genuine P1 text against the three frame decoders that precede the 'P1' entry: a data block consists of printable ASCII characters and CR / LF.  The LLC header octets are not
+    # checked by the grammar, but the date-time of the APDU header must start with 0x00 / 0x09 / 0x0C: inputs of 0..10 and of 24 octets, every octet symbolic over the text alphabet.
+    for n_oct in (0, 1, 2, 3, 4, 5, 6, 7, 8, 9, 10, 24):
+        for i in range(3):
+            nm, m_, f_ = BINARY_TABLE[i]
+            V = SymV(); octs = V.raw(f"p1_text_{n_oct}", n_oct)
+            V.cons += [z3.Or(z3.And(z3.UGE(b, 0x20), z3.ULE(b, 0x7E)), b == 0x0A, b == 0x0D) for b in octs]
+            obls += reject_obligations(eng, m_, f_, octs, f"P1 text of {n_oct} octets (printable ASCII, CR, LF)", V, nm); pairs.append((f"P1 text {n_oct}", nm))
     return eng, obls, {"pairs": len(pairs), "construct_rules_used": sorted(eng.decoder_stats["rules"])}
